@@ -13,7 +13,7 @@ from ._shared import use_shared
 ALPHA = [-2.0, -1.0, 0.0, 1.0, 3.0]     # repetition gives the ties; every ordering of a multiset is enumerated
 
 
-def one(costs, mm):
+def one(costs, mm, mode=None):
     # two cycles whose mean fitness does not change while every agent moves (plateau-like), then the final generation
     gens = [[(('g0', i), 5.0 + i, 0.5) for i in range(len(costs))],
             [(('g1', i), 4.0 - i, 0.5) for i in range(len(costs))],
@@ -21,7 +21,7 @@ def one(costs, mm):
     scriptopt.reset(gens=gens)
     o = ScriptOpt(ScriptConfig(population_size=len(costs), max_cycles=2))
     with contextlib.redirect_stdout(io.StringIO()):
-        res = o.optimize(task0(minmax=mm))
+        res = o.optimize(task0(minmax=mm), **({'mode': mode} if mode else {}))
     ex = SimpleNamespace(result=res, scn={'opt': 'ScriptOpt', 'minmax': mm})
     return [(k.replace('C03|ScriptOpt|', 'C03|final-generation|'), d) for _, k, d in monitors.m_c03(ex)], res
 
@@ -30,12 +30,12 @@ def run_final(rep, max_size):
     n, distinct, sample = 0, set(), None
     for size in range(1, max_size + 1):
         for costs in itertools.product(ALPHA, repeat=size):
-            for mm in ('min', 'max'):
-                finds, res = one(costs, mm)
+            for mm, mode in (('min', None), ('max', None), ('min', 'thread'), ('max', 'process')):
+                finds, res = one(costs, mm, mode)
                 n += 1
                 for k, d in finds:
-                    rep.finding(k, f"final generation costs {list(costs)} ({mm}): {d}",
-                                {'kind': 'e3', 'module': 'c03', 'case': {'costs': list(costs), 'minmax': mm}})
+                    rep.finding(k + (f"|mode={mode}" if mode else ''), f"final generation costs {list(costs)} ({mm}): {d}",
+                                {'kind': 'e3', 'module': 'c03', 'case': {'costs': list(costs), 'minmax': mm, 'mode': mode}})
                 # reported costs must come back in the user's sign
                 if [a.cost for a in res.evolution[-1].agents] != list(costs):
                     rep.finding('C03|final-generation|costs-not-in-user-sign', f"{list(costs)} ({mm})",
@@ -55,4 +55,5 @@ def run(rep, tier):
 
 
 def replay(case):
-    return dict(one(case['costs'], case['minmax'])[0])
+    return {k + (f"|mode={case.get('mode')}" if case.get('mode') else ''): d
+            for k, d in one(case['costs'], case['minmax'], case.get('mode'))[0]}
